@@ -64,13 +64,12 @@ def Phase (p : Prog) (s : S) (x : Option JobId) (j : JobId) : Prop :=
 def FailedOk (s : S) (j : JobId) : Prop :=
   (s.jobs j).evalFailed = true → ¬ pend s j ∨ Ev.reject j ∈ s.queue
 
-/-- The lifecycle invariant; `x` is the job whose event is being handled (exempt from `ph`, `failed`,
-`reg`), `y` the job that is being settled (still accepted as a collapse target). -/
+/-- The lifecycle invariant; `x` is the job whose event is being handled (exempt from `ph`, `failed`), `y` the job that is being settled (still accepted as a collapse target). -/
 structure Live (p : Prog) (s : S) (x y : Option JobId) : Prop where
   ph : ∀ j, j < s.next → pend s j → some j ≠ x → Phase p s y j
   failed : ∀ j, some j ≠ x → FailedOk s j
   reg : ∀ k t, (k, t) ∈ s.pendingJobs → keyOf p s t = k ∧ t < s.next ∧ ¬ Tw s t ∧ EW s t = 0 ∧
-    lookupPending s k = some t ∧ (some t ≠ x → pend s t)
+    lookupPending s k = some t ∧ (some t ≠ y → pend s t)
   a1 : ∀ j, 1 ≤ EW s j → pend s j ∧ (s.jobs j).twins = []
   twq : ∀ X t, t ∈ (s.jobs X).twins → EW s t = 0 ∧ t < s.next
   cnt : ∀ j, (s.jobs j).evalFailed = false → (s.jobs j).waiting ≤ cntPend s j
@@ -316,9 +315,8 @@ theorem live_weaken {p : Prog} {s : S} (j : JobId) (hl : Live p s none none) : L
 
 /-- end of a handler: the handled job `j` is back in a phase (or settled, its twins served) -/
 theorem live_fill {p : Prog} {s : S} {j : JobId} (hl : Live p s (some j) none)
-    (hph : pend s j → j < s.next → Phase p s none j) (hf : FailedOk s j)
-    (hreg : ∀ k, (k, j) ∈ s.pendingJobs → pend s j) : Live p s none none := by
-  refine ⟨?_, ?_, ?_, hl.a1, hl.twq, hl.cnt, hl.kid, hl.root⟩
+    (hph : pend s j → j < s.next → Phase p s none j) (hf : FailedOk s j) : Live p s none none := by
+  refine ⟨?_, ?_, hl.reg, hl.a1, hl.twq, hl.cnt, hl.kid, hl.root⟩
   · intro i hi hp _
     by_cases hij : i = j
     · subst hij; exact hph hp hi
@@ -327,12 +325,6 @@ theorem live_fill {p : Prog} {s : S} {j : JobId} (hl : Live p s (some j) none)
     by_cases hij : i = j
     · subst hij; exact hf
     · exact hl.failed i (fun h => hij (Option.some.inj h))
-  · intro k t hm
-    obtain ⟨a, b, c, d, e, f⟩ := hl.reg k t hm
-    refine ⟨a, b, c, d, e, fun _ => ?_⟩
-    by_cases htj : t = j
-    · subst htj; exact hreg k hm
-    · exact f (fun h => htj (Option.some.inj h))
 
 theorem cntPend_congr {s s' : S} (hn : s'.next = s.next) (hp : ∀ c, (s'.jobs c).parent = (s.jobs c).parent)
     (hs : ∀ c, (s'.jobs c).status = (s.jobs c).status) (i : JobId) : cntPend s' i = cntPend s i := by
@@ -402,7 +394,7 @@ theorem live_pendAppend {p : Prog} {s : S} {j : JobId} (hl : Live p s (some j) n
       obtain ⟨a, b⟩ := hl.twq X t ht
       have : t ≠ j := by intro h; subst h; exact hnt ⟨X, ht⟩
       exact ⟨by rw [hne t this]; exact a, b⟩
-  refine live_fill h1 (fun _ _ => Or.inl ?_) hf (fun _ _ => hp)
+  refine live_fill h1 (fun _ _ => Or.inl ?_) hf
   rw [hEW]; simp
 
 /-- `Job.collapse`: `j` joins the twins of the registered job `t` -/
@@ -446,7 +438,7 @@ theorem live_addTwin {p : Prog} {s : S} {j t : JobId} (hl : Live p s (some j) no
   have hQ : ∀ i, Q s i → Q s' i := by intro i; unfold Q C; rw [f6]; exact id
   have hspec : ∀ i, spec p s' i = spec p s i := fun i => same_spec f2 i
   obtain ⟨r1, r2, r3, r4, r5, r6⟩ := hl.reg _ t hreg
-  have hpt : pend s t := r6 (fun h => hne (Option.some.inj h))
+  have hpt : pend s t := r6 (by simp)
   have h1 : Live p s' (some j) none := by
     refine ⟨?_, ?_, ?_, ?_, ?_, ?_, ?_, ?_⟩
     · intro i hi hpi hx
@@ -507,7 +499,7 @@ theorem live_addTwin {p : Prog} {s : S} {j t : JobId} (hl : Live p s (some j) no
     rcases hf he with a | a
     · exact Or.inl (fun b => a ((hpend j).mp b))
     · exact Or.inr (by rw [f6]; exact a)
-  refine live_fill h1 (fun _ _ => ?_) hfj (fun _ _ => (hpend j).mpr hp)
+  refine live_fill h1 (fun _ _ => ?_) hfj
   refine Or.inr (Or.inr (Or.inr (Or.inr ⟨t, ?_, Or.inl ((hpend t).mpr hpt), by rw [f1]; exact r2, ?_, ?_⟩)))
   · rw [htwins]; simp
   · intro h
@@ -540,7 +532,7 @@ theorem lookupPending_append_new (s : S) (k : Nat × Nat) (j : JobId) (h : looku
 /-- `_pending_jobs.setdefault(key, job)` for a job that is about to be submitted -/
 theorem live_regAppend {p : Prog} {s : S} {j : JobId} {k : Nat × Nat} (hl : Live p s (some j) none)
     (hk : keyOf p s j = k) (hnone : lookupPending s k = none) (hnt : ¬ Tw s j) (hew : EW s j = 0)
-    (hlt : j < s.next) : Live p { s with pendingJobs := s.pendingJobs ++ [(k, j)] } (some j) none := by
+    (hlt : j < s.next) (hp : pend s j) : Live p { s with pendingJobs := s.pendingJobs ++ [(k, j)] } (some j) none := by
   refine ⟨hl.ph, hl.failed, ?_, hl.a1, hl.twq, hl.cnt, hl.kid, hl.root⟩
   intro k' t hm
   rcases List.mem_append.mp hm with a | a
@@ -549,7 +541,7 @@ theorem live_regAppend {p : Prog} {s : S} {j : JobId} {k : Nat × Nat} (hl : Liv
   · simp at a
     obtain ⟨e1, e2⟩ := a
     subst e1; subst e2
-    exact ⟨hk, hlt, hnt, hew, lookupPending_append_new s _ t hnone, fun h => absurd rfl h⟩
+    exact ⟨hk, hlt, hnt, hew, lookupPending_append_new s _ t hnone, fun _ => hp⟩
 
 theorem live_setInfl {p : Prog} {s : S} {j : JobId} (b : Bool) (sub : List JobId) (hl : Live p s (some j) none) :
     Live p { s with inflight := fun i => if i = j then b else s.inflight i, submits := sub } (some j) none := by
@@ -570,20 +562,19 @@ theorem live_setInfl {p : Prog} {s : S} {j : JobId} (b : Bool) (sub : List JobId
 
 /-- a handler that ends by queueing a post-exec event of the handled (still pending) job -/
 theorem live_QExit {p : Prog} {s s' : S} {j : JobId} (hl : Live p s (some j) none) (hfr : Fr s s') (hq : Q s' j)
-    (hp : pend s j) (hf : FailedOk s j) : Live p s' none none :=
+    (hf : FailedOk s j) : Live p s' none none :=
   live_fill (hfr.live hl) (fun _ _ => Or.inr (Or.inr (Or.inl hq))) (hfr.failedOk hf)
-    (fun _ _ => (hfr.pendIff j).mpr hp)
 
 theorem Q_of_mem_done {s : S} {j : JobId} {f : Bool} (h : Ev.done j f ∈ s.queue) : Q s j := Or.inl (Or.inl ⟨f, h⟩)
 theorem Q_of_mem_reject {s : S} {j : JobId} (h : Ev.reject j ∈ s.queue) : Q s j := Or.inl (Or.inr h)
 theorem Q_of_mem_resolve {s : S} {j : JobId} (h : Ev.resolve j ∈ s.queue) : Q s j := Or.inr h
 
 theorem live_cachedExit {p : Prog} {s : S} {j : JobId} (ev : Ev) (hev : (∃ f, ev = Ev.done j f) ∨ ev = Ev.reject j)
-    (hl : Live p s (some j) none) (hp : pend s j) (hf : FailedOk s j) :
+    (hl : Live p s (some j) none) (hf : FailedOk s j) :
     Live p (enqueue (checkPending p (setJob s j fun js => { js with wasCached := true })) ev) none none := by
   have hne : ∀ k, ev ≠ Ev.exec k := by
     intro k; rcases hev with ⟨f, rfl⟩ | rfl <;> simp
-  refine live_QExit hl (((fr_cached s j).trans (fr_checkPending p _)).trans (fr_enqueue _ ev hne)) ?_ hp hf
+  refine live_QExit hl (((fr_cached s j).trans (fr_checkPending p _)).trans (fr_enqueue _ ev hne)) ?_ hf
   rcases hev with ⟨f, rfl⟩ | rfl
   · exact Q_of_mem_done (mem_enqueue _ _)
   · exact Q_of_mem_reject (mem_enqueue _ _)
@@ -605,15 +596,15 @@ theorem execJob_live (p : Prog) (hd : p.dryrun = false) (s : S) (j : JobId) (hl 
   · rename_i hnotpending
     split
     · rename_i isErr _
-      exact live_cachedExit _ (by cases isErr <;> simp) hl hp hf
-    · exact live_cachedExit _ (Or.inl ⟨true, rfl⟩) hl hp hf
-    · exact live_cachedExit _ (Or.inl ⟨false, rfl⟩) hl hp hf
+      exact live_cachedExit _ (by cases isErr <;> simp) hl hf
+    · exact live_cachedExit _ (Or.inl ⟨true, rfl⟩) hl hf
+    · exact live_cachedExit _ (Or.inl ⟨false, rfl⟩) hl hf
     · split
       · exact live_pendAppend hl hp htw hnt hnr hf
       · simp only [hd, Bool.false_eq_true, if_false]
         have fc := fr_consume p s j
         split
-        · exact live_QExit hl (fc.trans (fr_enqueue _ _ (by intro k; simp))) (Q_of_mem_reject (mem_enqueue _ _)) hp hf
+        · exact live_QExit hl (fc.trans (fr_enqueue _ _ (by intro k; simp))) (Q_of_mem_reject (mem_enqueue _ _)) hf
         · -- submit
           have l1 : Live p (consume p s j) (some j) none := fc.live hl
           have hnt1 : ¬ Tw (consume p s j) j := hnt
@@ -631,10 +622,1041 @@ theorem execJob_live (p : Prog) (hd : p.dryrun = false) (s : S) (j : JobId) (hl 
                 cases h : lookupPending (consume p s j) ((spec p s j).key, (spec p s j).ctx) with
                 | none => rfl
                 | some t => rw [h] at hc; simp at hc
-              exact ⟨live_regAppend l1 rfl hnone hnt1 hew1 hlt1, hp, hf⟩
+              exact ⟨live_regAppend l1 rfl hnone hnt1 hew1 hlt1 hp, hp, hf⟩
           obtain ⟨s2, hs2, l2, hp2, hf2⟩ := l2
           rw [← hs2]
           have l3 := live_setInfl true (s2.submits ++ [j]) l2
-          exact live_fill l3 (fun _ _ => Or.inr (Or.inl (by simp))) hf2 (fun _ _ => hp2)
+          exact live_fill l3 (fun _ _ => Or.inr (Or.inl (by simp))) hf2
+
+
+/-! ## part 8: spawning the children -/
+
+theorem spawnOne_jobs_ne (s : S) (j : JobId) (c : SpecId) (i : JobId) (h : i ≠ s.next) :
+    (spawnOne s j c).jobs i = s.jobs i := by simp [spawnOne, h]
+theorem spawnOne_jobs_new (s : S) (j : JobId) (c : SpecId) :
+    (spawnOne s j c).jobs s.next = { created := true, parent := some j } := by simp [spawnOne]
+theorem spawnOne_spec_ne (p : Prog) (s : S) (j : JobId) (c : SpecId) (i : JobId) (h : i ≠ s.next) :
+    spec p (spawnOne s j c) i = spec p s i := by simp [spec, spawnOne, h]
+
+theorem spawnOne_cnt (s : S) (j : JobId) (c : SpecId) (i : JobId) :
+    cntPend (spawnOne s j c) i = cntPend s i + (if i = j then 1 else 0) := by
+  unfold cntPend
+  show cntTo (kidPend (spawnOne s j c) i) (s.next + 1) = _
+  simp only [cntTo]
+  have h1 : cntTo (kidPend (spawnOne s j c) i) s.next = cntTo (kidPend s i) s.next := by
+    apply cntTo_congr
+    intro x hx
+    unfold kidPend
+    rw [spawnOne_jobs_ne s j c x (Nat.ne_of_lt hx)]
+  rw [h1]
+  congr 1
+  unfold kidPend
+  rw [spawnOne_jobs_new]
+  by_cases h : i = j
+  · subst h; simp
+  · have : ¬ j = i := fun e => h e.symm
+    simp [h, this]
+
+theorem spawnOne_Tw (s : S) (j : JobId) (c : SpecId) (u : JobId) (h : Tw (spawnOne s j c) u) : Tw s u := by
+  obtain ⟨X, hX⟩ := h
+  by_cases hn : X = s.next
+  · subst hn; rw [spawnOne_jobs_new] at hX; simp at hX
+  · rw [spawnOne_jobs_ne s j c X hn] at hX; exact ⟨X, hX⟩
+
+theorem live_spawnOne {p : Prog} {s : S} {j : JobId} {c : SpecId} (hl : Live p s (some j) none) (hlt : j < s.next)
+    (hc : c ∈ (spec p s j).children) : Live p (spawnOne s j c) (some j) none := by
+  have hjn : j ≠ s.next := Nat.ne_of_lt hlt
+  have hnext : (spawnOne s j c).next = s.next + 1 := rfl
+  have hpend : ∀ i, i ≠ s.next → (pend (spawnOne s j c) i ↔ pend s i) := by
+    intro i hi; unfold pend; rw [spawnOne_jobs_ne s j c i hi]
+  have hEW := spawnOne_EW s j c
+  have hEWne : ∀ i, i ≠ s.next → EW (spawnOne s j c) i = EW s i := by
+    intro i hi; rw [hEW]; simp [hi]
+  refine ⟨?_, ?_, ?_, ?_, ?_, ?_, ?_, ?_⟩
+  · intro i hi hp hx
+    by_cases hin : i = s.next
+    · subst hin; left; rw [hEW]; simp
+    · have hi' : i < s.next := by have : i < s.next + 1 := hi; omega
+      rcases hl.ph i hi' ((hpend i hin).mp hp) hx with a | a | a | a | ⟨X, a1, a2, a3, a4, a5⟩
+      · exact Or.inl (by rw [hEWne i hin]; exact a)
+      · exact Or.inr (Or.inl a)
+      · exact Or.inr (Or.inr (Or.inl ((spawnOne_Q s j c i).mpr a)))
+      · exact Or.inr (Or.inr (Or.inr (Or.inl (by unfold EvalPh; rw [spawnOne_jobs_ne s j c i hin]; exact a))))
+      · have hXn : X ≠ s.next := Nat.ne_of_lt a3
+        refine Or.inr (Or.inr (Or.inr (Or.inr ⟨X, by rw [spawnOne_jobs_ne s j c X hXn]; exact a1, ?_,
+          Nat.lt_succ_of_lt a3, fun h => a4 (spawnOne_Tw s j c X h), ?_⟩)))
+        · rcases a2 with b | b
+          · exact Or.inl ((hpend X hXn).mpr b)
+          · exact Or.inr b
+        · rw [spawnOne_spec_ne p s j c X hXn, spawnOne_spec_ne p s j c i hin]; exact a5
+  · intro i hx he
+    by_cases hin : i = s.next
+    · subst hin; rw [spawnOne_jobs_new] at he; simp at he
+    · rw [spawnOne_jobs_ne s j c i hin] at he
+      rcases hl.failed i hx he with a | a
+      · exact Or.inl (fun b => a ((hpend i hin).mp b))
+      · exact Or.inr (List.mem_append_left _ a)
+  · intro k t hm
+    obtain ⟨a1, a2, a3, a4, a5, a6⟩ := hl.reg k t hm
+    have htn : t ≠ s.next := Nat.ne_of_lt a2
+    refine ⟨by unfold keyOf; rw [spawnOne_spec_ne p s j c t htn]; exact a1, Nat.lt_succ_of_lt a2,
+      fun h => a3 (spawnOne_Tw s j c t h), by rw [hEWne t htn]; exact a4, a5, fun hx => (hpend t htn).mpr (a6 hx)⟩
+  · intro i hi
+    by_cases hin : i = s.next
+    · subst hin; unfold pend; rw [spawnOne_jobs_new]; exact ⟨rfl, rfl⟩
+    · rw [hEWne i hin] at hi
+      rw [hpend i hin, spawnOne_jobs_ne s j c i hin]; exact hl.a1 i hi
+  · intro X t ht
+    by_cases hXn : X = s.next
+    · subst hXn; rw [spawnOne_jobs_new] at ht; simp at ht
+    · rw [spawnOne_jobs_ne s j c X hXn] at ht
+      obtain ⟨a, b⟩ := hl.twq X t ht
+      exact ⟨by rw [hEWne t (Nat.ne_of_lt b)]; exact a, Nat.lt_succ_of_lt b⟩
+  · intro i hi
+    rw [spawnOne_cnt]
+    by_cases hin : i = s.next
+    · subst hin; rw [spawnOne_jobs_new]; simp
+    · rw [spawnOne_jobs_ne s j c i hin] at hi ⊢
+      have := hl.cnt i hi; omega
+  · intro c' par hc' hp
+    by_cases hcn : c' = s.next
+    · subst hcn
+      rw [spawnOne_jobs_new] at hp
+      simp at hp; subst hp
+      refine ⟨Nat.lt_succ_of_lt hlt, ?_⟩
+      simp only [spawnOne, if_true, hjn, if_false]
+      exact hc
+    · rw [spawnOne_jobs_ne s j c c' hcn] at hp
+      have hc'' : c' < s.next := by have : c' < s.next + 1 := hc'; omega
+      obtain ⟨a, b⟩ := hl.kid c' par hc'' hp
+      refine ⟨Nat.lt_succ_of_lt a, ?_⟩
+      have hpn : par ≠ s.next := Nat.ne_of_lt a
+      simp only [spawnOne, hcn, hpn, if_false]
+      exact b
+  · obtain ⟨a, b, d⟩ := hl.root
+    have h0 : (0 : Nat) ≠ s.next := Nat.ne_of_lt b
+    refine ⟨by rw [spawnOne_jobs_ne s j c 0 h0]; exact a, Nat.lt_succ_of_lt b, ?_⟩
+    rcases d with d | d
+    · exact Or.inl ((hpend 0 h0).mpr d)
+    · exact Or.inr d
+
+
+/-! ## part 9: `_done_job_main_thread` -/
+
+theorem spawnFold_live {p : Prog} {j : JobId} (cs : List SpecId) (s : S) (hl : Live p s (some j) none)
+    (hlt : j < s.next) (hc : ∀ c, c ∈ cs → c ∈ (spec p s j).children) :
+    Live p (cs.foldl (fun s c => spawnOne s j c) s) (some j) none ∧
+    (cs.foldl (fun s c => spawnOne s j c) s).jobs j = s.jobs j ∧
+    (∀ e, e ∈ s.queue → e ∈ (cs.foldl (fun s c => spawnOne s j c) s).queue) ∧
+    cs.length + cntPend s j ≤ cntPend (cs.foldl (fun s c => spawnOne s j c) s) j := by
+  induction cs generalizing s with
+  | nil => exact ⟨hl, rfl, fun _ h => h, by simp⟩
+  | cons c cs ih =>
+    have hjn : j ≠ s.next := Nat.ne_of_lt hlt
+    have l1 := live_spawnOne hl hlt (hc c (by simp))
+    have hsp : spec p (spawnOne s j c) j = spec p s j := spawnOne_spec_ne p s j c j hjn
+    obtain ⟨a, b, d, e⟩ := ih (spawnOne s j c) l1 (Nat.lt_succ_of_lt hlt)
+      (fun c' hc' => by rw [hsp]; exact hc c' (by simp [hc']))
+    refine ⟨a, by rw [List.foldl_cons, b]; exact spawnOne_jobs_ne s j c j hjn,
+      fun ev hev => d ev (List.mem_append_left _ hev), ?_⟩
+    have := spawnOne_cnt s j c j
+    simp only [if_true] at this
+    simp only [List.foldl_cons, List.length_cons]
+    omega
+
+/-- `Promise.all` over the children: the parent records how many it waits for -/
+theorem live_setWaiting {p : Prog} {s : S} {j : JobId} (n : Nat) (hl : Live p s (some j) none)
+    (hn : (s.jobs j).evalFailed = false → n ≤ cntPend s j) :
+    Live p (setJob s j fun js => { js with waiting := n }) (some j) none := by
+  generalize hs' : (setJob s j fun js => { js with waiting := n }) = s'
+  have hst : ∀ i, (s'.jobs i).status = (s.jobs i).status := by
+    intro i; rw [← hs']; simp only [setJob]; split <;> rfl
+  have hwt : ∀ i, i ≠ j → (s'.jobs i).waiting = (s.jobs i).waiting := by
+    intro i hi; rw [← hs']; simp [setJob, hi]
+  have hwj : (s'.jobs j).waiting = n := by rw [← hs']; simp [setJob]
+  have hef : ∀ i, (s'.jobs i).evalFailed = (s.jobs i).evalFailed := by
+    intro i; rw [← hs']; simp only [setJob]; split <;> rfl
+  have hpar : ∀ i, (s'.jobs i).parent = (s.jobs i).parent := by
+    intro i; rw [← hs']; simp only [setJob]; split <;> rfl
+  have htw : ∀ i, (s'.jobs i).twins = (s.jobs i).twins := by
+    intro i; rw [← hs']; simp only [setJob]; split <;> rfl
+  have hrest : s'.next = s.next ∧ s'.specOf = s.specOf ∧ s'.inflight = s.inflight ∧ s'.pendingJobs = s.pendingJobs ∧
+      s'.finished = s.finished ∧ s'.queue = s.queue ∧ s'.pendingLimits = s.pendingLimits := by
+    rw [← hs']; exact ⟨rfl, rfl, rfl, rfl, rfl, rfl, rfl⟩
+  obtain ⟨f1, f2, f3, f4, f5, f6, f7⟩ := hrest
+  have hEW : ∀ i, EW s' i = EW s i := by intro i; unfold EW; rw [f6, f7]
+  have hpend : ∀ i, pend s' i ↔ pend s i := by intro i; unfold pend; rw [hst]
+  have hTw : ∀ i, Tw s' i ↔ Tw s i := by intro i; unfold Tw; simp only [htw]
+  have hspec : ∀ i, spec p s' i = spec p s i := fun i => same_spec f2 i
+  refine ⟨?_, ?_, ?_, ?_, ?_, ?_, ?_, ?_⟩
+  · intro i hi hpi hx
+    have hij : i ≠ j := fun h => hx (by rw [h])
+    rw [f1] at hi
+    rcases hl.ph i hi ((hpend i).mp hpi) hx with a | a | a | a | ⟨X, a1, a2, a3, a4, a5⟩
+    · exact Or.inl (by rw [hEW]; exact a)
+    · exact Or.inr (Or.inl (by rw [f3]; exact a))
+    · exact Or.inr (Or.inr (Or.inl (by unfold Q C; rw [f6]; exact a)))
+    · exact Or.inr (Or.inr (Or.inr (Or.inl (by unfold EvalPh; rw [hef, hwt i hij]; exact a))))
+    · refine Or.inr (Or.inr (Or.inr (Or.inr ⟨X, by rw [htw]; exact a1, ?_, by rw [f1]; exact a3,
+        by rw [hTw]; exact a4, by rw [hspec, hspec]; exact a5⟩)))
+      rcases a2 with b | b
+      · exact Or.inl ((hpend X).mpr b)
+      · exact Or.inr b
+  · intro i hx he
+    rw [hef] at he
+    rcases hl.failed i hx he with a | a
+    · exact Or.inl (fun b => a ((hpend i).mp b))
+    · exact Or.inr (by rw [f6]; exact a)
+  · intro k u hm
+    rw [f4] at hm
+    obtain ⟨a, b, c, d, e, f⟩ := hl.reg k u hm
+    exact ⟨by unfold keyOf; rw [hspec]; exact a, by rw [f1]; exact b, by rw [hTw]; exact c, by rw [hEW]; exact d,
+      by unfold lookupPending; rw [f4]; exact e, fun hx => (hpend u).mpr (f hx)⟩
+  · intro i hi
+    rw [hEW] at hi
+    obtain ⟨a, b⟩ := hl.a1 i hi
+    exact ⟨(hpend i).mpr a, by rw [htw]; exact b⟩
+  · intro X u hu
+    rw [htw] at hu
+    rw [hEW, f1]; exact hl.twq X u hu
+  · intro i hi
+    rw [hef] at hi
+    rw [cntPend_congr f1 hpar hst]
+    by_cases hij : i = j
+    · subst hij; rw [hwj]; exact hn hi
+    · rw [hwt i hij]; exact hl.cnt i hi
+  · intro c par hc hpc
+    rw [f1] at hc; rw [hpar] at hpc
+    rw [f1, f2]; exact hl.kid c par hc hpc
+  · obtain ⟨a, b, c⟩ := hl.root
+    refine ⟨by rw [hpar]; exact a, by rw [f1]; exact b, ?_⟩
+    rcases c with c | c
+    · exact Or.inl ((hpend 0).mpr c)
+    · exact Or.inr (by rw [f5]; exact c)
+
+
+theorem doneJob_live (p : Prog) (s : S) (j : JobId) (f : Bool) (hl : Live p s (some j) none) (hlt : j < s.next)
+    (hf : FailedOk s j) : Live p (doneJob p s j f) none none := by
+  rw [doneJob_eq]
+  have f0 := fr_releaseIf p s j
+  generalize releaseIf p s j = s1 at f0
+  unfold doneRest
+  have f1 : Fr s1 (if (!(s1.jobs j).wasCached && (spec p s1 j).prov) = true then
+      { s1 with evalTable := (spec p s1 j).key :: s1.evalTable } else s1) := by
+    split
+    · exact fr_of_eq rfl rfl rfl rfl rfl rfl rfl rfl
+    · exact Fr.refl s1
+  have hsp : spec p (if (!(s1.jobs j).wasCached && (spec p s1 j).prov) = true then
+      { s1 with evalTable := (spec p s1 j).key :: s1.evalTable } else s1) j = spec p s j := by
+    rw [f1.spec, f0.spec]
+  generalize (if (!(s1.jobs j).wasCached && (spec p s1 j).prov) = true then
+      { s1 with evalTable := (spec p s1 j).key :: s1.evalTable } else s1) = s2 at f1 hsp
+  have f2 := f0.trans f1
+  have l2 : Live p s2 (some j) none := f2.live hl
+  have hf2 : FailedOk s2 j := f2.failedOk hf
+  have hlt2 : j < s2.next := by rw [f2.next]; exact hlt
+  dsimp only
+  split
+  · exact live_fill ((fr_enqueue s2 _ (by intro k; simp)).live l2)
+      (fun _ _ => Or.inr (Or.inr (Or.inl (Q_of_mem_resolve (mem_enqueue _ _)))))
+      ((fr_enqueue s2 _ (by intro k; simp)).failedOk hf2)
+  · unfold spawn
+    obtain ⟨a, b, c, d⟩ := spawnFold_live (spec p s2 j).children s2 l2 hlt2 (fun _ h => h)
+    generalize (List.foldl (fun s c => spawnOne s j c) s2 (spec p s2 j).children) = s3 at a b c d
+    have l4 := live_setWaiting (spec p s2 j).children.length a (fun _ => by omega)
+    have hf3 : FailedOk s3 j := by
+      intro he
+      rw [b] at he
+      rcases hf2 he with x | x
+      · exact Or.inl (fun y => x (by unfold pend at y ⊢; rw [← b]; exact y))
+      · exact Or.inr (c _ x)
+    have hf4 : FailedOk (setJob s3 j fun js => { js with waiting := (spec p s2 j).children.length }) j := by
+      intro he
+      have he' : (s3.jobs j).evalFailed = true := by simpa [setJob] using he
+      rcases hf3 he' with x | x
+      · exact Or.inl (fun y => x (by unfold pend at y ⊢; simpa [setJob] using y))
+      · exact Or.inr x
+    dsimp only
+    generalize hs4 : (setJob s3 j fun js => { js with waiting := (spec p s2 j).children.length }) = s4 at l4 hf4
+    have hw4 : (s4.jobs j).waiting = (spec p s2 j).children.length := by rw [← hs4]; simp [setJob]
+    split
+    · exact live_fill ((fr_enqueue s4 _ (by intro k; simp)).live l4)
+        (fun _ _ => Or.inr (Or.inr (Or.inl (Q_of_mem_resolve (mem_enqueue _ _)))))
+        ((fr_enqueue s4 _ (by intro k; simp)).failedOk hf4)
+    · rename_i hne
+      refine live_fill l4 (fun hp _ => ?_) hf4
+      by_cases he : (s4.jobs j).evalFailed = true
+      · rcases hf4 he with x | x
+        · exact absurd hp x
+        · exact Or.inr (Or.inr (Or.inl (Q_of_mem_reject x)))
+      · refine Or.inr (Or.inr (Or.inr (Or.inl ⟨by simpa using he, ?_⟩)))
+        rw [hw4]
+        cases hcs : (spec p s2 j).children with
+        | nil => rw [hcs] at hne; simp at hne
+        | cons c cs => simp
+
+
+/-! ## part 11: a job resolves and tells its parent -/
+
+/-- effect of `status := resolved; notifyParentResolved` -/
+structure ResEff (s s' : S) (j : JobId) : Prop where
+  next : s'.next = s.next
+  specOf : s'.specOf = s.specOf
+  infl : s'.inflight = s.inflight
+  pj : s'.pendingJobs = s.pendingJobs
+  pl : s'.pendingLimits = s.pendingLimits
+  st : ∀ i, (s'.jobs i).status = if i = j then Status.resolved else (s.jobs i).status
+  wt : ∀ i, (s'.jobs i).waiting = if (s.jobs j).parent = some i then (s.jobs i).waiting - 1 else (s.jobs i).waiting
+  ef : ∀ i, (s'.jobs i).evalFailed = (s.jobs i).evalFailed
+  par : ∀ i, (s'.jobs i).parent = (s.jobs i).parent
+  tw : ∀ i, (s'.jobs i).twins = (s.jobs i).twins
+  queue : s'.queue = s.queue ∨ ∃ par, s'.queue = s.queue ++ [Ev.resolve par]
+  qres : ∀ par, (s.jobs j).parent = some par → (s.jobs par).evalFailed = false → (s.jobs par).waiting - 1 = 0 →
+    Ev.resolve par ∈ s'.queue
+  fin : ((s.jobs j).parent = none → s'.finished = true) ∧ (s.finished = true → s'.finished = true)
+
+theorem resEff (s : S) (j : JobId) :
+    ResEff s (notifyParentResolved (setJob s j fun js => { js with status := Status.resolved }) j) j := by
+  unfold notifyParentResolved
+  have hpj : ((setJob s j fun js => { js with status := Status.resolved }).jobs j).parent = (s.jobs j).parent := by
+    simp [setJob]
+  rw [hpj]
+  cases hp : (s.jobs j).parent with
+  | none =>
+    dsimp only
+    refine ⟨rfl, rfl, rfl, rfl, rfl, ?_, ?_, ?_, ?_, ?_, Or.inl rfl, ?_, ⟨fun _ => rfl, fun _ => rfl⟩⟩
+    · intro i; simp only [setJob]; split <;> rfl
+    · intro i; rw [hp]; simp only [setJob]; split <;> simp
+    · intro i; simp only [setJob]; split <;> rfl
+    · intro i; simp only [setJob]; split <;> rfl
+    · intro i; simp only [setJob]; split <;> rfl
+    · intro par h; rw [hp] at h; simp at h
+  | some par =>
+    dsimp only
+    generalize hs2 : (setJob (setJob s j fun js => { js with status := Status.resolved }) par
+      fun js => { js with waiting := js.waiting - 1 }) = s2
+    have h2 : s2.next = s.next ∧ s2.specOf = s.specOf ∧ s2.inflight = s.inflight ∧ s2.pendingJobs = s.pendingJobs ∧
+        s2.pendingLimits = s.pendingLimits ∧ s2.queue = s.queue ∧ s2.finished = s.finished := by
+      rw [← hs2]; exact ⟨rfl, rfl, rfl, rfl, rfl, rfl, rfl⟩
+    obtain ⟨g1, g2, g3, g4, g5, g6, g7⟩ := h2
+    have hst : ∀ i, (s2.jobs i).status = if i = j then Status.resolved else (s.jobs i).status := by
+      intro i; rw [← hs2]; simp only [setJob]; split <;> split <;> simp_all
+    have hwt : ∀ i, (s2.jobs i).waiting = if (s.jobs j).parent = some i then (s.jobs i).waiting - 1 else (s.jobs i).waiting := by
+      intro i; rw [← hs2, hp]; simp only [setJob]
+      by_cases h1 : i = par
+      · subst h1; simp; split <;> rfl
+      · have : ¬ par = i := fun e => h1 e.symm
+        simp [h1, this]; split <;> rfl
+    have hef : ∀ i, (s2.jobs i).evalFailed = (s.jobs i).evalFailed := by
+      intro i; rw [← hs2]; simp only [setJob]; split <;> split <;> rfl
+    have hpar : ∀ i, (s2.jobs i).parent = (s.jobs i).parent := by
+      intro i; rw [← hs2]; simp only [setJob]; split <;> split <;> rfl
+    have htw : ∀ i, (s2.jobs i).twins = (s.jobs i).twins := by
+      intro i; rw [← hs2]; simp only [setJob]; split <;> split <;> rfl
+    split
+    · rename_i hc
+      refine ⟨g1, g2, g3, g4, g5, hst, hwt, hef, hpar, htw, Or.inr ⟨par, by simp [enqueue, g6]⟩, ?_,
+        ⟨fun h => by rw [hp] at h; simp at h, fun h => by show s2.finished = true; rw [g7]; exact h⟩⟩
+      intro par' h _ _
+      rw [hp] at h; simp at h; subst h; simp [enqueue]
+    · rename_i hc
+      refine ⟨g1, g2, g3, g4, g5, hst, hwt, hef, hpar, htw, Or.inl g6, ?_,
+        ⟨fun h => by rw [hp] at h; simp at h, fun h => by rw [g7]; exact h⟩⟩
+      intro par' h h1 h2
+      rw [hp] at h; simp at h; subst h
+      exfalso; apply hc
+      rw [hwt, hef, hp]; simp [h1, h2]
+
+
+theorem EW_append_resolve (s s' : S) (hpl : s'.pendingLimits = s.pendingLimits)
+    (hq : s'.queue = s.queue ∨ ∃ par, s'.queue = s.queue ++ [Ev.resolve par]) (i : JobId) : EW s' i = EW s i := by
+  unfold EW; rw [hpl]
+  rcases hq with h | ⟨par, h⟩
+  · rw [h]
+  · rw [h]; simp [List.count_append]
+
+theorem ResEff.live {p : Prog} {s s' : S} {j : JobId} (h : ResEff s s' j) (hl : Live p s (some j) none)
+    (hew : EW s j = 0) : Live p s' (some j) (some j) := by
+  have hEW := EW_append_resolve s s' h.pl h.queue
+  have hmem : ∀ e, e ∈ s.queue → e ∈ s'.queue := by
+    intro e he
+    rcases h.queue with q | ⟨par, q⟩
+    · rw [q]; exact he
+    · rw [q]; exact List.mem_append_left _ he
+  have hQ : ∀ i, Q s i → Q s' i := by
+    intro i hq
+    rcases hq with (⟨f, a⟩ | a) | a
+    · exact Or.inl (Or.inl ⟨f, hmem _ a⟩)
+    · exact Or.inl (Or.inr (hmem _ a))
+    · exact Or.inr (hmem _ a)
+  have hpend : ∀ i, pend s' i → pend s i ∧ i ≠ j := by
+    intro i hp; unfold pend at hp ⊢; rw [h.st] at hp
+    by_cases e : i = j
+    · simp [e] at hp
+    · simp only [e, if_false] at hp; exact ⟨hp, e⟩
+  have hpend' : ∀ i, i ≠ j → pend s i → pend s' i := by
+    intro i e hp; unfold pend at hp ⊢; rw [h.st]; simp only [e, if_false]; exact hp
+  have hTw : ∀ i, Tw s' i ↔ Tw s i := by intro i; unfold Tw; simp only [h.tw]
+  have hspec : ∀ i, spec p s' i = spec p s i := fun i => same_spec h.specOf i
+  refine ⟨?_, ?_, ?_, ?_, ?_, ?_, ?_, ?_⟩
+  · intro i hi hp hx
+    rw [h.next] at hi
+    obtain ⟨hp0, hij⟩ := hpend i hp
+    rcases hl.ph i hi hp0 hx with a | a | a | a | ⟨X, a1, a2, a3, a4, a5⟩
+    · exact Or.inl (by rw [hEW]; exact a)
+    · exact Or.inr (Or.inl (by rw [h.infl]; exact a))
+    · exact Or.inr (Or.inr (Or.inl (hQ i a)))
+    · by_cases hpar : (s.jobs j).parent = some i
+      · by_cases hz : (s.jobs i).waiting - 1 = 0
+        · exact Or.inr (Or.inr (Or.inl (Or.inr (h.qres i hpar a.1 hz))))
+        · refine Or.inr (Or.inr (Or.inr (Or.inl ⟨by rw [h.ef]; exact a.1, ?_⟩)))
+          rw [h.wt]; simp only [hpar, if_true]; omega
+      · refine Or.inr (Or.inr (Or.inr (Or.inl ⟨by rw [h.ef]; exact a.1, ?_⟩)))
+        rw [h.wt]; simp only [hpar, if_false]; exact a.2
+    · refine Or.inr (Or.inr (Or.inr (Or.inr ⟨X, by rw [h.tw]; exact a1, ?_, by rw [h.next]; exact a3,
+        by rw [hTw]; exact a4, by rw [hspec, hspec]; exact a5⟩)))
+      by_cases hX : X = j
+      · exact Or.inr (by rw [hX])
+      · rcases a2 with b | b
+        · exact Or.inl (hpend' X hX b)
+        · simp at b
+  · intro i hx he
+    rw [h.ef] at he
+    rcases hl.failed i hx he with a | a
+    · exact Or.inl (fun b => a (hpend i b).1)
+    · exact Or.inr (hmem _ a)
+  · intro k t hm
+    rw [h.pj] at hm
+    obtain ⟨a, b, c, d, e, f⟩ := hl.reg k t hm
+    refine ⟨by unfold keyOf; rw [hspec]; exact a, by rw [h.next]; exact b, by rw [hTw]; exact c, by rw [hEW]; exact d,
+      by unfold lookupPending; rw [h.pj]; exact e, fun hx => ?_⟩
+    exact hpend' t (fun e' => hx (by rw [e'])) (f (by simp))
+  · intro i hi
+    rw [hEW] at hi
+    obtain ⟨a, b⟩ := hl.a1 i hi
+    have hij : i ≠ j := by intro e; subst e; omega
+    exact ⟨hpend' i hij a, by rw [h.tw]; exact b⟩
+  · intro X t ht
+    rw [h.tw] at ht
+    rw [hEW, h.next]; exact hl.twq X t ht
+  · intro i hi
+    rw [h.ef] at hi
+    have hc := hl.cnt i hi
+    rw [h.wt]
+    unfold cntPend at hc ⊢
+    rw [h.next]
+    have hk : ∀ c, c ≠ j → kidPend s i c = kidPend s' i c := by
+      intro c hcj; unfold kidPend; rw [h.par, h.st]; simp [hcj]
+    by_cases hpar : (s.jobs j).parent = some i
+    · simp only [hpar, if_true]
+      have := cntTo_update_le (f := kidPend s i) (g := kidPend s' i) (n := s.next) j hk
+      omega
+    · simp only [hpar, if_false]
+      have : cntTo (kidPend s i) s.next = cntTo (kidPend s' i) s.next := by
+        apply cntTo_congr
+        intro c _
+        by_cases hcj : c = j
+        · subst hcj; unfold kidPend; rw [h.par]; simp [hpar]
+        · exact hk c hcj
+      omega
+  · intro c par hc hpc
+    rw [h.next] at hc; rw [h.par] at hpc
+    rw [h.next, h.specOf]; exact hl.kid c par hc hpc
+  · obtain ⟨a, b, c⟩ := hl.root
+    refine ⟨by rw [h.par]; exact a, by rw [h.next]; exact b, ?_⟩
+    by_cases h0 : (0 : Nat) = j
+    · subst h0; exact Or.inr (h.fin.1 a)
+    · rcases c with c | c
+      · exact Or.inl (hpend' 0 h0 c)
+      · exact Or.inr (h.fin.2 c)
+
+
+/-! ## part 13: a job is rejected and tells its parent -/
+
+/-- effect of `status := rejected; notifyParentRejected` -/
+structure RejEff (s s' : S) (u : JobId) : Prop where
+  next : s'.next = s.next
+  specOf : s'.specOf = s.specOf
+  infl : s'.inflight = s.inflight
+  pj : s'.pendingJobs = s.pendingJobs
+  pl : s'.pendingLimits = s.pendingLimits
+  st : ∀ i, (s'.jobs i).status = if i = u then Status.rejected else (s.jobs i).status
+  wt : ∀ i, (s'.jobs i).waiting = (s.jobs i).waiting
+  ef : ∀ i, (s'.jobs i).evalFailed = if (s.jobs u).parent = some i then true else (s.jobs i).evalFailed
+  par : ∀ i, (s'.jobs i).parent = (s.jobs i).parent
+  tw : ∀ i, (s'.jobs i).twins = (s.jobs i).twins
+  queue : s'.queue = s.queue ∨ ∃ par, s'.queue = s.queue ++ [Ev.reject par]
+  qrej : ∀ par, (s.jobs u).parent = some par → (s.jobs par).evalFailed = false → Ev.reject par ∈ s'.queue
+  fin : ((s.jobs u).parent = none → s'.finished = true) ∧ (s.finished = true → s'.finished = true)
+
+theorem rejEff (s : S) (u : JobId) :
+    RejEff s (notifyParentRejected (setJob s u fun js => { js with status := Status.rejected }) u) u := by
+  unfold notifyParentRejected
+  have hpj : ((setJob s u fun js => { js with status := Status.rejected }).jobs u).parent = (s.jobs u).parent := by
+    simp [setJob]
+  rw [hpj]
+  have hst1 : ∀ i, ((setJob s u fun js => { js with status := Status.rejected }).jobs i).status =
+      if i = u then Status.rejected else (s.jobs i).status := by
+    intro i; simp only [setJob]; split <;> rfl
+  have hef1 : ∀ i, ((setJob s u fun js => { js with status := Status.rejected }).jobs i).evalFailed =
+      (s.jobs i).evalFailed := by
+    intro i; simp only [setJob]; split <;> rfl
+  cases hp : (s.jobs u).parent with
+  | none =>
+    dsimp only
+    refine ⟨rfl, rfl, rfl, rfl, rfl, hst1, ?_, ?_, ?_, ?_, Or.inl rfl, ?_,
+      ⟨fun _ => rfl, fun _ => rfl⟩⟩
+    · intro i; simp only [setJob]; split <;> rfl
+    · intro i; rw [hp]; simp only [setJob]; split <;> simp
+    · intro i; simp only [setJob]; split <;> rfl
+    · intro i; simp only [setJob]; split <;> rfl
+    · intro par h; rw [hp] at h; simp at h
+  | some par =>
+    dsimp only
+    rw [hef1]
+    split
+    · rename_i hc
+      refine ⟨rfl, rfl, rfl, rfl, rfl, hst1, ?_, ?_, ?_, ?_, Or.inl rfl, ?_,
+        ⟨fun h => by rw [hp] at h; simp at h, fun h => h⟩⟩
+      · intro i; simp only [setJob]; split <;> rfl
+      · intro i; rw [hp, hef1]
+        by_cases e : par = i
+        · subst e; simp [hc]
+        · simp [e]
+      · intro i; simp only [setJob]; split <;> rfl
+      · intro i; simp only [setJob]; split <;> rfl
+      · intro par' h h1; rw [hp] at h; simp at h; subst h; rw [hc] at h1; simp at h1
+    · rename_i hc
+      refine ⟨rfl, rfl, rfl, rfl, rfl, ?_, ?_, ?_, ?_, ?_, Or.inr ⟨par, rfl⟩, ?_,
+        ⟨fun h => by rw [hp] at h; simp at h, fun h => h⟩⟩
+      · intro i; simp only [enqueue, setJob]; split <;> split <;> simp_all
+      · intro i; simp only [enqueue, setJob]; split <;> split <;> rfl
+      · intro i; rw [hp]; simp only [enqueue, setJob]
+        by_cases e : i = par
+        · subst e; simp
+        · have : ¬ par = i := fun e' => e e'.symm
+          simp [e, this]; split <;> rfl
+      · intro i; simp only [enqueue, setJob]; split <;> split <;> rfl
+      · intro i; simp only [enqueue, setJob]; split <;> split <;> rfl
+      · intro par' h _; rw [hp] at h; simp at h; subst h; simp [enqueue]
+
+
+theorem EW_append_reject (s s' : S) (hpl : s'.pendingLimits = s.pendingLimits)
+    (hq : s'.queue = s.queue ∨ ∃ par, s'.queue = s.queue ++ [Ev.reject par]) (i : JobId) : EW s' i = EW s i := by
+  unfold EW; rw [hpl]
+  rcases hq with h | ⟨par, h⟩
+  · rw [h]
+  · rw [h]; simp [List.count_append]
+
+theorem live_open {p : Prog} {s : S} {x : Option JobId} (j : JobId) (hl : Live p s x none) : Live p s x (some j) := by
+  refine ⟨?_, hl.failed, ?_, hl.a1, hl.twq, hl.cnt, hl.kid, hl.root⟩
+  · intro i hi hp hx
+    rcases hl.ph i hi hp hx with a | a | a | a | ⟨X, a1, a2, a3, a4, a5⟩
+    · exact Or.inl a
+    · exact Or.inr (Or.inl a)
+    · exact Or.inr (Or.inr (Or.inl a))
+    · exact Or.inr (Or.inr (Or.inr (Or.inl a)))
+    · refine Or.inr (Or.inr (Or.inr (Or.inr ⟨X, a1, ?_, a3, a4, a5⟩)))
+      rcases a2 with b | b
+      · exact Or.inl b
+      · simp at b
+  · intro k t hm
+    obtain ⟨a, b, c, d, e, f⟩ := hl.reg k t hm
+    exact ⟨a, b, c, d, e, fun _ => f (by simp)⟩
+
+theorem RejEff.live {p : Prog} {s s' : S} {j u : JobId} (h : RejEff s s' u) (hl : Live p s (some j) (some j))
+    (hu : u = j ∨ Tw s u) (hew : EW s u = 0) : Live p s' (some j) (some j) := by
+  have hEW := EW_append_reject s s' h.pl h.queue
+  have hmem : ∀ e, e ∈ s.queue → e ∈ s'.queue := by
+    intro e he
+    rcases h.queue with q | ⟨par, q⟩
+    · rw [q]; exact he
+    · rw [q]; exact List.mem_append_left _ he
+  have hQ : ∀ i, Q s i → Q s' i := by
+    intro i hq
+    rcases hq with (⟨f, a⟩ | a) | a
+    · exact Or.inl (Or.inl ⟨f, hmem _ a⟩)
+    · exact Or.inl (Or.inr (hmem _ a))
+    · exact Or.inr (hmem _ a)
+  have hpend : ∀ i, pend s' i → pend s i ∧ i ≠ u := by
+    intro i hp; unfold pend at hp ⊢; rw [h.st] at hp
+    by_cases e : i = u
+    · simp [e] at hp
+    · simp only [e, if_false] at hp; exact ⟨hp, e⟩
+  have hpend' : ∀ i, i ≠ u → pend s i → pend s' i := by
+    intro i e hp; unfold pend at hp ⊢; rw [h.st]; simp only [e, if_false]; exact hp
+  have hTw : ∀ i, Tw s' i ↔ Tw s i := by intro i; unfold Tw; simp only [h.tw]
+  have hspec : ∀ i, spec p s' i = spec p s i := fun i => same_spec h.specOf i
+  refine ⟨?_, ?_, ?_, ?_, ?_, ?_, ?_, ?_⟩
+  · intro i hi hp hx
+    rw [h.next] at hi
+    obtain ⟨hp0, hiu⟩ := hpend i hp
+    rcases hl.ph i hi hp0 hx with a | a | a | a | ⟨X, a1, a2, a3, a4, a5⟩
+    · exact Or.inl (by rw [hEW]; exact a)
+    · exact Or.inr (Or.inl (by rw [h.infl]; exact a))
+    · exact Or.inr (Or.inr (Or.inl (hQ i a)))
+    · by_cases hpar : (s.jobs u).parent = some i
+      · exact Or.inr (Or.inr (Or.inl (Or.inl (Or.inr (h.qrej i hpar a.1)))))
+      · refine Or.inr (Or.inr (Or.inr (Or.inl ⟨?_, by rw [h.wt]; exact a.2⟩)))
+        rw [h.ef]; simp only [hpar, if_false]; exact a.1
+    · refine Or.inr (Or.inr (Or.inr (Or.inr ⟨X, by rw [h.tw]; exact a1, ?_, by rw [h.next]; exact a3,
+        by rw [hTw]; exact a4, by rw [hspec, hspec]; exact a5⟩)))
+      rcases a2 with b | b
+      · by_cases hX : X = u
+        · rcases hu with c | c
+          · exact Or.inr (by rw [hX, c])
+          · exact absurd (hX ▸ c) a4
+        · exact Or.inl (hpend' X hX b)
+      · exact Or.inr b
+  · intro i hx he
+    rw [h.ef] at he
+    by_cases hpar : (s.jobs u).parent = some i
+    · by_cases hold : (s.jobs i).evalFailed = true
+      · rcases hl.failed i hx hold with a | a
+        · exact Or.inl (fun b => a (hpend i b).1)
+        · exact Or.inr (hmem _ a)
+      · exact Or.inr (h.qrej i hpar (by simpa using hold))
+    · simp only [hpar, if_false] at he
+      rcases hl.failed i hx he with a | a
+      · exact Or.inl (fun b => a (hpend i b).1)
+      · exact Or.inr (hmem _ a)
+  · intro k t hm
+    rw [h.pj] at hm
+    obtain ⟨a, b, c, d, e, f⟩ := hl.reg k t hm
+    refine ⟨by unfold keyOf; rw [hspec]; exact a, by rw [h.next]; exact b, by rw [hTw]; exact c, by rw [hEW]; exact d,
+      by unfold lookupPending; rw [h.pj]; exact e, fun hx => ?_⟩
+    have htu : t ≠ u := by
+      intro e'
+      rcases hu with c' | c'
+      · exact hx (by rw [e', c'])
+      · exact c (e' ▸ c')
+    exact hpend' t htu (f hx)
+  · intro i hi
+    rw [hEW] at hi
+    obtain ⟨a, b⟩ := hl.a1 i hi
+    have hiu : i ≠ u := by intro e; subst e; omega
+    exact ⟨hpend' i hiu a, by rw [h.tw]; exact b⟩
+  · intro X t ht
+    rw [h.tw] at ht
+    rw [hEW, h.next]; exact hl.twq X t ht
+  · intro i hi
+    rw [h.ef] at hi
+    have hpar : ¬ (s.jobs u).parent = some i := by
+      intro e; simp [e] at hi
+    simp only [hpar, if_false] at hi
+    have hc := hl.cnt i hi
+    rw [h.wt]
+    unfold cntPend at hc ⊢
+    rw [h.next]
+    have : cntTo (kidPend s i) s.next = cntTo (kidPend s' i) s.next := by
+      apply cntTo_congr
+      intro c _
+      unfold kidPend; rw [h.par, h.st]
+      by_cases hcu : c = u
+      · subst hcu; simp [hpar]
+      · simp [hcu]
+    omega
+  · intro c par hc hpc
+    rw [h.next] at hc; rw [h.par] at hpc
+    rw [h.next, h.specOf]; exact hl.kid c par hc hpc
+  · obtain ⟨a, b, c⟩ := hl.root
+    refine ⟨by rw [h.par]; exact a, by rw [h.next]; exact b, ?_⟩
+    by_cases h0 : (0 : Nat) = u
+    · subst h0; exact Or.inr (h.fin.1 a)
+    · rcases c with c | c
+      · exact Or.inl (hpend' 0 h0 c)
+      · exact Or.inr (h.fin.2 c)
+
+
+/-! ## part 15: `_finalize_job`, closing the exemptions, serving the twins -/
+
+theorem live_finalize {p : Prog} {s : S} {x y : Option JobId} (u : JobId) (hl : Live p s x y) :
+    Live p (finalize p s u) x y ∧ ∀ k, (k, u) ∉ (finalize p s u).pendingJobs := by
+  unfold finalize
+  dsimp only
+  split
+  · rename_i hreg
+    constructor
+    · refine ⟨hl.ph, hl.failed, ?_, hl.a1, hl.twq, hl.cnt, hl.kid, hl.root⟩
+      intro k t hm
+      have hm' := List.mem_filter.mp hm
+      obtain ⟨a, b, c, d, e, f⟩ := hl.reg k t hm'.1
+      refine ⟨a, b, c, d, ?_, f⟩
+      have hk : k ≠ ((spec p s u).key, (spec p s u).ctx) := by simpa using hm'.2
+      unfold lookupPending at e ⊢
+      show Option.map (fun x => x.2) (List.find? (fun e => e.1 == k)
+        (List.filter (fun e => e.1 != ((spec p s u).key, (spec p s u).ctx)) s.pendingJobs)) = some t
+      rw [lookup_filter_ne s.pendingJobs _ k hk]; exact e
+    · intro k hm
+      have hm' := List.mem_filter.mp hm
+      obtain ⟨a, _⟩ := hl.reg k u hm'.1
+      have : k = ((spec p s u).key, (spec p s u).ctx) := by rw [← a]; rfl
+      simp [this] at hm'
+  · rename_i hreg
+    refine ⟨hl, ?_⟩
+    intro k hm
+    obtain ⟨a, _, _, _, e, _⟩ := hl.reg k u hm
+    have : k = ((spec p s u).key, (spec p s u).ctx) := by rw [← a]; rfl
+    rw [this] at e
+    exact hreg e
+
+/-- end of a settling handler: `j` is settled, unregistered, and its pending twins have their event -/
+theorem live_close {p : Prog} {s : S} {j : JobId} (hl : Live p s (some j) (some j)) (hnp : ¬ pend s j)
+    (htw : ∀ t, t ∈ (s.jobs j).twins → pend s t → Q s t) (hnr : ∀ k, (k, j) ∉ s.pendingJobs) :
+    Live p s none none := by
+  refine ⟨?_, ?_, ?_, hl.a1, hl.twq, hl.cnt, hl.kid, hl.root⟩
+  · intro i hi hp _
+    have hij : i ≠ j := by intro e; subst e; exact hnp hp
+    rcases hl.ph i hi hp (fun h => hij (Option.some.inj h)) with a | a | a | a | ⟨X, a1, a2, a3, a4, a5⟩
+    · exact Or.inl a
+    · exact Or.inr (Or.inl a)
+    · exact Or.inr (Or.inr (Or.inl a))
+    · exact Or.inr (Or.inr (Or.inr (Or.inl a)))
+    · rcases a2 with b | b
+      · exact Or.inr (Or.inr (Or.inr (Or.inr ⟨X, a1, Or.inl b, a3, a4, a5⟩)))
+      · have hX : X = j := Option.some.inj b
+        subst hX
+        exact Or.inr (Or.inr (Or.inl (htw i a1 hp)))
+  · intro i _
+    by_cases hij : i = j
+    · subst hij; exact fun _ => Or.inl hnp
+    · exact hl.failed i (fun h => hij (Option.some.inj h))
+  · intro k t hm
+    obtain ⟨a, b, c, d, e, f⟩ := hl.reg k t hm
+    refine ⟨a, b, c, d, e, fun _ => f ?_⟩
+    intro h
+    have : t = j := Option.some.inj h
+    subst this; exact hnr k hm
+
+/-- the twins of a resolved job get their `done` event -/
+theorem twinsDone_fr (l : List JobId) (s : S) :
+    Fr s (l.foldl (fun s t => enqueue (setJob s t fun js => { js with wasCached := true }) (Ev.done t true)) s) ∧
+    ∀ t, t ∈ l → Ev.done t true ∈
+      (l.foldl (fun s t => enqueue (setJob s t fun js => { js with wasCached := true }) (Ev.done t true)) s).queue := by
+  induction l generalizing s with
+  | nil => exact ⟨Fr.refl s, by simp⟩
+  | cons a l ih =>
+    have f1 : Fr s (enqueue (setJob s a fun js => { js with wasCached := true }) (Ev.done a true)) :=
+      (fr_cached s a).trans (fr_enqueue _ _ (by intro k; simp))
+    obtain ⟨f2, m2⟩ := ih (enqueue (setJob s a fun js => { js with wasCached := true }) (Ev.done a true))
+    refine ⟨f1.trans f2, ?_⟩
+    intro t ht
+    rcases List.mem_cons.mp ht with e | e
+    · subst e
+      exact f2.qm _ (by intro k; simp) (mem_enqueue _ _)
+    · exact m2 t e
+
+
+/-! ## part 16: `_resolve_job_main_thread` -/
+
+theorem finalize_frame (p : Prog) (s : S) (j : JobId) :
+    (finalize p s j).jobs = s.jobs ∧ (finalize p s j).queue = s.queue := by
+  unfold finalize; dsimp only; split <;> exact ⟨rfl, rfl⟩
+
+theorem resolveJob_live (p : Prog) (s : S) (j : JobId) (hl : Live p s (some j) none) (hew : EW s j = 0) :
+    Live p (resolveJob p s j) none none := by
+  unfold resolveJob
+  dsimp only
+  have f0 := fr_record p s j false
+  generalize record p s j false = s0 at f0
+  have l0 := f0.live hl
+  have hew0 : EW s0 j = 0 := by rw [f0.ew]; exact hew
+  have eff := resEff s0 j
+  generalize (notifyParentResolved (setJob s0 j fun js => { js with status := Status.resolved }) j) = s2 at eff
+  have l2 := eff.live l0 hew0
+  have hnp2 : (s2.jobs j).status = Status.resolved := by rw [eff.st]; simp
+  obtain ⟨f3, m3⟩ := twinsDone_fr (s2.jobs j).twins s2
+  generalize (List.foldl (fun s t => enqueue (setJob s t fun js => { js with wasCached := true }) (Ev.done t true)) s2
+    (s2.jobs j).twins) = s3 at f3 m3
+  have l3 := f3.live l2
+  obtain ⟨l4, hnr⟩ := live_finalize j l3
+  obtain ⟨g1, g2⟩ := finalize_frame p s3 j
+  refine live_close l4 ?_ ?_ hnr
+  · unfold pend; rw [g1, f3.st, hnp2]; simp
+  · intro t ht _
+    rw [g1, f3.tw] at ht
+    exact Q_of_mem_done (by rw [g2]; exact m3 t ht)
+
+
+/-! ## part 17: `_reject_job_main_thread` -/
+
+theorem rejectTwin_live (p : Prog) (s : S) (j t : JobId) (hl : Live p s (some j) (some j))
+    (ht : t ∈ (s.jobs j).twins) :
+    Live p (rejectTwin p s t) (some j) (some j) ∧
+    (∀ i, ((rejectTwin p s t).jobs i).twins = (s.jobs i).twins) ∧
+    (∀ i, ((rejectTwin p s t).jobs i).status = if i = t then Status.rejected else (s.jobs i).status) := by
+  unfold rejectTwin
+  dsimp only
+  have f0 : Fr s (record p (setJob s t fun js => { js with wasCached := true }) t true) :=
+    (fr_cached s t).trans (fr_record p _ t true)
+  generalize (record p (setJob s t fun js => { js with wasCached := true }) t true) = s0 at f0
+  have l0 := f0.live hl
+  have hTw0 : Tw s0 t := (f0.twIff t).mpr ⟨j, ht⟩
+  have hew0 : EW s0 t = 0 := by rw [f0.ew]; exact (hl.twq j t ht).1
+  have eff := rejEff s0 t
+  generalize (notifyParentRejected (setJob s0 t fun js => { js with status := Status.rejected }) t) = s2 at eff
+  have l2 := eff.live l0 (Or.inr hTw0) hew0
+  obtain ⟨l3, _⟩ := live_finalize t l2
+  obtain ⟨g1, _⟩ := finalize_frame p s2 t
+  refine ⟨l3, ?_, ?_⟩
+  · intro i; rw [g1, eff.tw, f0.tw]
+  · intro i; rw [g1, eff.st, f0.st]
+
+theorem rejectTwins_live (p : Prog) (j : JobId) (l : List JobId) (s : S) (hl : Live p s (some j) (some j))
+    (ht : ∀ t, t ∈ l → t ∈ (s.jobs j).twins) :
+    Live p (l.foldl (rejectTwin p) s) (some j) (some j) ∧
+    (∀ i, ((l.foldl (rejectTwin p) s).jobs i).twins = (s.jobs i).twins) ∧
+    (∀ i, ¬ pend s i → ¬ pend (l.foldl (rejectTwin p) s) i) ∧
+    (∀ t, t ∈ l → ¬ pend (l.foldl (rejectTwin p) s) t) := by
+  induction l generalizing s with
+  | nil => exact ⟨hl, fun _ => rfl, fun _ h => h, by simp⟩
+  | cons a l ih =>
+    obtain ⟨l1, tw1, st1⟩ := rejectTwin_live p s j a hl (ht a (by simp))
+    obtain ⟨l2, tw2, np2, nl2⟩ := ih (rejectTwin p s a) l1 (fun t h => by rw [tw1]; exact ht t (by simp [h]))
+    have hnp1 : ∀ i, ¬ pend s i → ¬ pend (rejectTwin p s a) i := by
+      intro i h1 h2; unfold pend at h1 h2; rw [st1] at h2
+      split at h2
+      · simp at h2
+      · exact h1 h2
+    refine ⟨l2, fun i => (tw2 i).trans (tw1 i), fun i h => np2 i (hnp1 i h), ?_⟩
+    intro t h
+    rcases List.mem_cons.mp h with e | e
+    · subst e
+      apply np2
+      unfold pend; rw [st1]; simp
+    · exact nl2 t e
+
+theorem rejectJob_live (p : Prog) (s : S) (j : JobId) (hl : Live p s (some j) none) (hew : EW s j = 0) :
+    Live p (rejectJob p s j) none none := by
+  rw [rejectJob_eq]
+  unfold rejectRest
+  dsimp only
+  have f0 : Fr s (record p (releaseIf p s j) j true) := (fr_releaseIf p s j).trans (fr_record p _ j true)
+  generalize (record p (releaseIf p s j) j true) = s0 at f0
+  have l0 := live_open j (f0.live hl)
+  have hew0 : EW s0 j = 0 := by rw [f0.ew]; exact hew
+  have eff := rejEff s0 j
+  generalize (notifyParentRejected (setJob s0 j fun js => { js with status := Status.rejected }) j) = s2 at eff
+  have l2 := eff.live l0 (Or.inl rfl) hew0
+  have hnp2 : ¬ pend s2 j := by unfold pend; rw [eff.st]; simp
+  obtain ⟨l3, tw3, np3, nl3⟩ := rejectTwins_live p j (s2.jobs j).twins s2 l2 (fun _ h => h)
+  generalize (List.foldl (rejectTwin p) s2 (s2.jobs j).twins) = s3 at l3 tw3 np3 nl3
+  obtain ⟨l4, hnr⟩ := live_finalize j l3
+  obtain ⟨g1, g2⟩ := finalize_frame p s3 j
+  refine live_close l4 ?_ ?_ hnr
+  · unfold pend; rw [g1]; exact np3 j hnp2
+  · intro t ht hp
+    rw [g1, tw3] at ht
+    exact absurd (by unfold pend at hp ⊢; rw [g1] at hp; exact hp) (nl3 t ht)
+
+
+/-! ## part 18: every reachable state satisfies the lifecycle invariant -/
+
+theorem complete_live (p : Prog) (s : S) (j : JobId) (hl : Live p s none none) :
+    Live p (complete p s j) none none := by
+  unfold complete
+  have l1 : Live p { s with inflight := fun i => if i = j then false else s.inflight i } (some j) none :=
+    live_setInfl false s.submits (live_weaken j hl)
+  have hf1 : FailedOk { s with inflight := fun i => if i = j then false else s.inflight i } j := hl.failed j (by simp)
+  generalize ({ s with inflight := fun i => if i = j then false else s.inflight i } : S) = s1 at l1 hf1
+  dsimp only
+  have hne : ∀ k, (if (spec p s1 j).fails = true then Ev.reject j else Ev.done j false) ≠ Ev.exec k := by
+    intro k; split <;> simp
+  have fr := fr_enqueue s1 _ hne
+  refine live_fill (fr.live l1) (fun _ _ => Or.inr (Or.inr (Or.inl ?_))) (fr.failedOk hf1)
+  have hm := mem_enqueue s1 (if (spec p s1 j).fails = true then Ev.reject j else Ev.done j false)
+  split at hm
+  · rename_i h; simp only [h, if_true]; exact Q_of_mem_reject hm
+  · rename_i h; simp only [h]; exact Q_of_mem_done hm
+
+theorem pop_live (p : Prog) (hd : p.dryrun = false) (s : S) (hinv : Inv p s) (hl : Live p s none none) :
+    Live p (pop p s) none none := by
+  unfold pop
+  split
+  · exact hl
+  · rename_i e rest hq
+    rw [tl_eq s e rest hq]
+    have lt := live_tl p s e rest hq hl
+    cases e with
+    | exec j =>
+      obtain ⟨a, b, c, d, f⟩ := exec_head_facts p s j rest hq hinv.core
+      have hEW := tl_EW_eq s (Ev.exec j) rest hq j
+      simp only [if_true] at hEW
+      obtain ⟨hp, htw⟩ := hl.a1 j (by omega)
+      have hnr : ∀ k, (k, j) ∉ (tl s).pendingJobs := by
+        intro k hm
+        have := (hl.reg k j hm).2.2.2.1
+        omega
+      exact execJob_live p hd (tl s) j lt hp htw (fun ⟨X, hX⟩ => c X hX) (EW_zero_of_occA a.1) a.2.2 hnr
+        (failedOk_tl p s _ rest hq hl j (by simp))
+    | done j f =>
+      have hQ : Q s j := Q_of_mem_done (f := f) (by rw [hq]; simp)
+      exact doneJob_live p (tl s) j f lt (lt_next_of_Q hinv.core hQ) (failedOk_tl p s _ rest hq hl j (by simp))
+    | resolve j =>
+      have hQ : Q s j := Q_of_mem_resolve (by rw [hq]; simp)
+      have h0 := hinv.core.q_quiet j hQ
+      exact resolveJob_live p (tl s) j lt (Nat.le_zero.mp (h0 ▸ tl_EW_le s j))
+    | reject j =>
+      have hQ : Q s j := Q_of_mem_reject (by rw [hq]; simp)
+      have h0 := hinv.core.q_quiet j hQ
+      exact rejectJob_live p (tl s) j lt (Nat.le_zero.mp (h0 ▸ tl_EW_le s j))
+
+theorem live_init (p : Prog) : Live p init none none := by
+  have hj : ∀ j, (init.jobs j).status = Status.pending ∧ (init.jobs j).twins = [] ∧ (init.jobs j).evalFailed = false ∧
+      (init.jobs j).waiting = 0 ∧ (init.jobs j).parent = none := by
+    intro j; simp only [init]; split <;> exact ⟨rfl, rfl, rfl, rfl, rfl⟩
+  refine ⟨?_, ?_, ?_, ?_, ?_, ?_, ?_, ?_⟩
+  · intro j hj' _ _
+    have : j = 0 := by simp only [init] at hj'; omega
+    subst this
+    left; simp [EW, init]
+  · intro j _ he; rw [(hj j).2.2.1] at he; simp at he
+  · intro k t hm; simp [init] at hm
+  · intro j _; exact ⟨(hj j).1, (hj j).2.1⟩
+  · intro X t ht; rw [(hj X).2.1] at ht; simp at ht
+  · intro j _; rw [(hj j).2.2.2.1]; exact Nat.zero_le _
+  · intro c par _ hp; rw [(hj c).2.2.2.2] at hp; simp at hp
+  · exact ⟨(hj 0).2.2.2.2, by simp [init], Or.inl (hj 0).1⟩
+
+theorem reachable_live (p : Prog) (hd : p.dryrun = false) (s : S) (h : Reachable p s) : Live p s none none := by
+  induction h with
+  | init => exact live_init p
+  | step hr hs ih =>
+    cases hs with
+    | pop _ _ => exact pop_live p hd _ (reachable_inv p _ hr) ih
+    | complete j _ _ => exact complete_live p _ j ih
+
+
+/-! ## part 19: an idle scheduler has no pending job -/
+
+/-- a job never (transitively) calls a job with its own cache key -/
+def Ranked (p : Prog) : Prop :=
+  ∃ rank : Nat → Nat, ∀ i c, c ∈ (p.specAt i).children → rank (p.specAt c).key < rank (p.specAt i).key
+
+def Idle (s : S) : Prop := s.queue = [] ∧ s.pendingLimits = [] ∧ ∀ j, s.inflight j = false
+
+theorem idle_noTokens {s : S} (h : Idle s) (j : JobId) : EW s j = 0 ∧ ¬ Q s j := by
+  obtain ⟨hq, hp, _⟩ := h
+  refine ⟨by unfold EW; rw [hq, hp]; rfl, ?_⟩
+  unfold Q C; rw [hq]; simp
+
+theorem eval_has_pending_kid {p : Prog} {s : S} (hl : Live p s none none) (rank : Nat → Nat)
+    (hrank : ∀ i c, c ∈ (p.specAt i).children → rank (p.specAt c).key < rank (p.specAt i).key)
+    (j : JobId) (he : EvalPh s j) :
+    ∃ c, c < s.next ∧ pend s c ∧ rank (spec p s c).key < rank (spec p s j).key := by
+  have hc := hl.cnt j he.1
+  have hpos : 0 < cntPend s j := Nat.lt_of_lt_of_le he.2 hc
+  obtain ⟨c, hlt, hk⟩ := cntTo_pos_exists hpos
+  unfold kidPend at hk
+  simp only [Bool.and_eq_true, decide_eq_true_eq] at hk
+  exact ⟨c, hlt, hk.2, hrank _ _ (hl.kid c j hlt hk.1).2⟩
+
+theorem idle_descend {p : Prog} {s : S} (hl : Live p s none none) (hidle : Idle s) (rank : Nat → Nat)
+    (hrank : ∀ i c, c ∈ (p.specAt i).children → rank (p.specAt c).key < rank (p.specAt i).key)
+    (j : JobId) (hj : j < s.next) (hp : pend s j) :
+    ∃ c, c < s.next ∧ pend s c ∧ rank (spec p s c).key < rank (spec p s j).key := by
+  have hno := idle_noTokens hidle
+  rcases hl.ph j hj hp (by simp) with a | a | a | a | ⟨X, a1, a2, a3, a4, a5⟩
+  · have := (hno j).1; omega
+  · rw [hidle.2.2 j] at a; simp at a
+  · exact absurd a (hno j).2
+  · exact eval_has_pending_kid hl rank hrank j a
+  · have hpX : pend s X := by
+      rcases a2 with b | b
+      · exact b
+      · simp at b
+    rcases hl.ph X a3 hpX (by simp) with b | b | b | b | ⟨Y, b1, _⟩
+    · have := (hno X).1; omega
+    · rw [hidle.2.2 X] at b; simp at b
+    · exact absurd b (hno X).2
+    · obtain ⟨c, h1, h2, h3⟩ := eval_has_pending_kid hl rank hrank X b
+      exact ⟨c, h1, h2, by rw [← a5]; exact h3⟩
+    · exact absurd ⟨Y, b1⟩ a4
+
+theorem idle_no_pending {p : Prog} {s : S} (hl : Live p s none none) (hidle : Idle s) (rank : Nat → Nat)
+    (hrank : ∀ i c, c ∈ (p.specAt i).children → rank (p.specAt c).key < rank (p.specAt i).key) :
+    ∀ n j, j < s.next → pend s j → rank (spec p s j).key = n → False := by
+  intro n
+  induction n using Nat.strongRecOn with
+  | _ n ih =>
+    intro j hj hp hn
+    obtain ⟨c, h1, h2, h3⟩ := idle_descend hl hidle rank hrank j hj hp
+    exact ih _ (hn ▸ h3) c h1 h2 rfl
+
+/-- Deadlock freedom on the invariant: an idle state has settled the root. -/
+theorem idle_finished {p : Prog} {s : S} (hl : Live p s none none) (hidle : Idle s) (hr : Ranked p) :
+    s.finished = true := by
+  obtain ⟨rank, hrank⟩ := hr
+  obtain ⟨_, hn, h⟩ := hl.root
+  rcases h with h | h
+  · exact absurd rfl (fun e => idle_no_pending hl hidle rank hrank _ 0 hn h e)
+  · exact h
+
+
+/-! ## part 20: concrete schedules, decidable side conditions -/
+
+theorem reachable_runChoice (p : Prog) (s : S) (c : Choice) (h : Reachable p s) : Reachable p (runChoice p s c) := by
+  cases c with
+  | pop =>
+    simp only [runChoice]
+    split
+    · exact h
+    · rename_i hc
+      simp only [Bool.or_eq_true, not_or, Bool.not_eq_true, List.isEmpty_iff] at hc
+      exact Reachable.step h (Step.pop s hc.1 hc.2)
+  | complete j =>
+    simp only [runChoice]
+    split
+    · exact h
+    · rename_i hc
+      simp only [Bool.or_eq_true, not_or, Bool.not_eq_true, Bool.not_eq_eq_eq_not, Bool.not_true,
+        Bool.not_eq_false] at hc
+      exact Reachable.step h (Step.complete s j hc.1 hc.2)
+
+theorem reachable_foldl (p : Prog) (cs : List Choice) (s : S) (h : Reachable p s) :
+    Reachable p (cs.foldl (runChoice p) s) := by
+  induction cs generalizing s with
+  | nil => exact h
+  | cons c cs ih => exact ih _ (reachable_runChoice p s c h)
+
+theorem reachable_run (p : Prog) (cs : List Choice) : Reachable p (run p cs) :=
+  reachable_foldl p cs init Reachable.init
+
+/-- in a reachable state only created jobs are in flight: a bounded check suffices -/
+theorem inflight_none_of_bounded (p : Prog) (s : S) (h : Reachable p s)
+    (hb : ∀ j, j < s.next → s.inflight j = false) : ∀ j, s.inflight j = false := by
+  intro j
+  by_cases hj : j < s.next
+  · exact hb j hj
+  · exact ((reachable_inv p s h).core.fresh j (Nat.le_of_not_lt hj)).2.1
+
+theorem specAt_default (p : Prog) (i : SpecId) (hi : p.specs.length ≤ i) : p.specAt i = default := by
+  unfold Prog.specAt
+  rw [List.getD_eq_getElem?_getD, List.getElem?_eq_none hi]; rfl
+
+/-- a decidable check that implies `Ranked` -/
+theorem ranked_of_check (p : Prog) (rank : Nat → Nat)
+    (h : ((List.range p.specs.length).all fun i => (p.specAt i).children.all fun c =>
+      decide (rank (p.specAt c).key < rank (p.specAt i).key)) = true) : Ranked p := by
+  refine ⟨rank, ?_⟩
+  intro i c hc
+  by_cases hi : i < p.specs.length
+  · have := List.all_eq_true.mp h i (List.mem_range.mpr hi)
+    have := List.all_eq_true.mp this c hc
+    simpa using this
+  · rw [specAt_default p i (Nat.le_of_not_lt hi)] at hc
+    exact absurd hc (by show c ∉ ([] : List SpecId); simp)
+
+theorem provScope_of_check (p : Prog)
+    (h : (p.specs.all fun sp => sp.prov || sp.scope == Scope.none) = true) : ProvScope p := by
+  intro i hp
+  by_cases hi : i < p.specs.length
+  · have hmem : p.specAt i ∈ p.specs := by
+      unfold Prog.specAt
+      rw [List.getD_eq_getElem?_getD, List.getElem?_eq_getElem hi]; exact List.getElem_mem hi
+    have := List.all_eq_true.mp h _ hmem
+    rw [hp] at this
+    simpa using this
+  · rw [specAt_default p i (Nat.le_of_not_lt hi)]; rfl
 
 end RedunModel.SchedCore
